@@ -11,6 +11,7 @@ import (
 
 	"github.com/mgtv-tech/redis-GunYu/verifshim/mc"
 	"github.com/mgtv-tech/redis-GunYu/verifshim/redisd"
+	"github.com/mgtv-tech/redis-GunYu/verifshim/ref"
 	"github.com/mgtv-tech/redis-GunYu/verifshim/vtime"
 )
 
@@ -23,6 +24,8 @@ type c14Scenario struct {
 	Idle       int      `json:"idle_restarts"` // restarts with no traffic after the stream completed
 	Preempt    bool     `json:"preempt,omitempty"`
 	Plan       []string `json:"plan,omitempty"` // preemption plan over the wake-up statements of syncer/bisync.go
+	OtherDB    bool     `json:"other_db,omitempty"`  // the target already holds a key in db 1 and db 3 (start-up visits several databases)
+	SnapKeys   int      `json:"snap_keys,omitempty"` // keys in the snapshot the first full sync replays (0 = empty snapshot)
 }
 
 type c14Run struct {
@@ -72,6 +75,30 @@ func c14Exec(t *testing.T, scn c14Scenario, ch *mc.Chooser) (rec c14Rec, machine
 		}
 		biEnvReset()
 		srv := redisd.New(c14Target)
+		if scn.OtherDB {
+			srv.Put(1, "resident:1", &redisd.Value{T: 's', Str: []byte("x")})
+			srv.Put(3, "resident:3", &redisd.Value{T: 's', Str: []byte("y")})
+		}
+		var snapRDB []byte
+		if scn.SnapKeys > 0 {
+			var keys []ref.RDBKey
+			for i := 0; i < scn.SnapKeys; i++ {
+				keys = append(keys, ref.RDBKey{DB: 0, Key: []byte(fmt.Sprintf("snapkey%d", i)), Val: &ref.RValue{Type: 's', Str: []byte(fmt.Sprintf("sv%d", i))}, Enc: ref.RDBEnc{Kind: "raw"}, Idle: -1, Freq: -1})
+			}
+			g, gerr := ref.GenRDB(ref.RDBFileOpt{Version: 11, Aux: true}, keys)
+			if gerr != nil {
+				machinery = "rdb generator: " + gerr.Error()
+				return
+			}
+			snapRDB = g.File
+			for _, gv := range g.Values {
+				for i := 0; i < scn.SnapKeys; i++ {
+					if string(gv.Key) == fmt.Sprintf("snapkey%d", i) {
+						srv.RegisterRestorable(gv.Body, &redisd.Value{T: 's', Str: []byte(fmt.Sprintf("sv%d", i))})
+					}
+				}
+			}
+		}
 		env := &aofEnv{t: t, srv: srv}
 		items := buildStream(scn.Syms)
 		rec.Items = items
@@ -87,6 +114,9 @@ func c14Exec(t *testing.T, scn c14Scenario, ch *mc.Chooser) (rec c14Rec, machine
 			}
 			var boot biBootResult
 			crashed := ctl.event(fmt.Sprintf("crash.boot%d", runNo), func() {
+				if snapRDB != nil {
+					biBootRDB = snapRDB
+				}
 				boot = biBoot(scn.Cfg, rc, "src", aofRunID, aofS0, true, srv)
 			})
 			rr.BootEnd = srv.NumReqs()
@@ -281,6 +311,9 @@ func oracleC14(scn c14Scenario, rec *c14Rec) mc.Result {
 		switch name {
 		case "info", "exists", "hgetall", "hget", "zrangebyscore", "command", "hsetnx", "cluster", "asking":
 			continue
+		}
+		if strings.HasPrefix(string(r.Argv[1]), "snapkey") {
+			continue // a unit of the snapshot phase (scenario SnapKeys), not of the incremental stream
 		}
 		ui := unitOf(r)
 		if ui < 0 {
@@ -628,6 +661,54 @@ func runC14(t *testing.T, rep *mc.Reporter) {
 				return oracleC14(s, &rec), rec.Seen, rec.Hit
 			})
 		}
+	}
+	// ---- initial states other than "empty target, empty snapshot": the target holds keys in other
+	// databases (the start sequence visits them) / the first full sync replays a snapshot with keys
+	// (its units come before the incremental ones)
+	if fam == "" {
+		type variant struct {
+			other bool
+			snap  int
+		}
+		vars := []variant{{true, 0}, {false, 2}, {true, 1}}
+		enumSeqs([]string{"w1", "t2"}, 2, func(seq []string) {
+			for _, cfg := range allCfg {
+				for _, v := range vars {
+					idx++
+					if idx%nshards != shard || budget.Expired() {
+						continue
+					}
+					scn := c14Scenario{Syms: append([]string{"s0"}, seq...), Cfg: cfg, MaxCrashes: 1, Idle: 2, OtherDB: v.other, SnapKeys: v.snap}
+					if !v.other {
+						mc.RunScenario(rep, scn, 0, budget, func(ch *mc.Chooser) mc.Result { return exec(scn, ch) })
+						continue
+					}
+					// several populated databases: the order in which the start sequence visits them is Go map
+					// iteration order, which no seam controls. No crash here (a crash point would have to be
+					// replayed under the same order); the one execution is repeated so that all orders of three
+					// databases come up (6 orders, 24 repetitions); a violation must show again within 200 more.
+					scn.MaxCrashes = 0
+					rep.Scenario()
+					for k := 0; k < 24; k++ {
+						res := exec(scn, mc.NewChooser(nil))
+						if res.Verdict == "violation" {
+							again := false
+							for j := 0; j < 200 && !again; j++ {
+								r2 := exec(scn, mc.NewChooser(nil))
+								again = r2.Verdict == "violation" && r2.Sig == res.Sig
+							}
+							if !again {
+								res = mc.Result{Verdict: "machinery", Clause: "violation did not show again in 200 repetitions: " + res.Sig, Detail: res.Detail}
+							}
+						}
+						rep.Exec(scn, nil, res)
+						if res.Verdict != "ok" {
+							break
+						}
+					}
+				}
+			}
+		})
 	}
 	for _, pl := range plans {
 		pl := pl
